@@ -457,3 +457,13 @@ contract('schema.ComponentParser.start_component', params={'attrs': ATTRS},
 contract('schema.ComponentParser.end_component', requires=[Clause('len(self._prefixes) > 0', label='inside-an-element-that-pushed')],
          modifies=['self._prefixes'],
          ensures=[Clause('self._prefixes == old(self._prefixes)[:-1]', carries='C11', label='prefix-scope-ends-with-the-element')])
+contract('schema.BaseParser.__init__', params={'loader': 'Ref[loader.SchemaLoader]', 'url': 'Opt[str]'},
+         requires=[Clause("accepts_nonempty(reg_get(loader.registry, 'identifier')) and accepts_nonempty(reg_get(loader.registry, 'basic-key'))",
+                          label='the-registry-holds-conversions-that-never-return-the-empty-string (C09 regex languages; '
+                                'bind:datatypes ties the stock registry to them)')],
+         modifies=['self.*'],
+         ensures=[Clause('self._loader == loader and self._url == url and self._registry == loader.registry', label='arguments-stored'),
+                  Clause("self._basic_key == reg_get(loader.registry, 'basic-key') and self._identifier == reg_get(loader.registry, 'identifier')",
+                         carries='C10', label='names-are-checked-by-the-registered-conversions'),
+                  Clause('len(self._stack) == 0 and len(self._prefixes) == 0 and len(self._elem_stack) == 0 and self._schema is None '
+                         'and self._cdata is None and self._locator is None', carries='C10', label='parser-starts-outside-any-element')])
